@@ -51,7 +51,7 @@ package types
 
 // End height of a fresh pool: start + min over rules of floor(total / per-block) (C06).
 //@ func FarmPool.ExpiredHeight
-//@   property C06
+//@   property C05, C06
 //@   returns end, err
 //@   requires pool.StartHeight >= 0
 //@   requires forall j:Int :: 0 <= j && j < len(pool.Rules) ==> pool.Rules[j].RewardPerBlock > 0 && pool.Rules[j].TotalReward >= 0
